@@ -30,7 +30,14 @@ pub enum Input {
 #[derive(Clone, Debug, Serialize, Deserialize)]
 pub struct Case {
     pub input: Input,
+    /// separator convention in force for structured lines (index into SEPS; 0 = the default)
+    #[serde(default)]
+    pub seps: u8,
 }
+
+/// (decimal, thousands) conventions under which structured lines are rendered and evaluated: the four reading
+/// conventions and two in which neither ',' nor '.' (resp. '.') is a separator
+pub const SEPS: [(&str, &str); 6] = [(",", "."), (".", ","), (".", ""), (",", ""), (".", " "), (",", "'")];
 
 /// validity of the token list of one line
 pub fn check_valid(tokens: &[UiToken], line: &str) -> Result<(), String> {
@@ -129,18 +136,21 @@ impl Prop for Spans {
                         l.toks[i].space = 1;
                     }
                 }
-                let (mut text, spans) = l.render_with_offsets(",", ".", extra);
+                let (dec, thou) = SEPS[c.seps as usize % SEPS.len()];
+                // literals are written without grouping under the printing-only conventions
+                let rthou = if c.seps as usize % SEPS.len() >= 4 { "" } else { thou };
+                let (mut text, spans) = l.render_with_offsets(dec, rthou, extra);
                 let comment_start = text.chars().count() + 1;
                 if let Some(cm) = comment {
                     text.push_str(" #");
                     text.push_str(cm);
                 }
-                let prelude: Vec<String> = g.prelude.iter().map(|p| p.render(",", ".")).collect();
+                let prelude: Vec<String> = g.prelude.iter().map(|p| p.render(dec, rthou)).collect();
                 let mut all_lines = prelude.clone();
                 all_lines.push(text.clone());
                 let full = all_lines.join("\n");
-                let rendered = format!("[{} {}] {:?}", g.src, g.lang, full);
-                let out = match w.eval(&g.cfg(",", "."), &g.lang, &full) {
+                let rendered = if c.seps as usize % SEPS.len() == 0 { format!("[{} {}] {:?}", g.src, g.lang, full) } else { format!("[{} {} dec={:?} thou={:?}] {:?}", g.src, g.lang, dec, thou, full) };
+                let out = match w.eval(&g.cfg(dec, thou), &g.lang, &full) {
                     Ok(o) => o,
                     Err(p) => return Verdict::fail(format!("panic at {}: {}", p.site, p.message), rendered),
                 };
@@ -164,7 +174,18 @@ impl Prop for Spans {
                         let glued_to_prev_sign = i > 0 && t.space + extra.get(i).copied().unwrap_or(0) == 0 && matches!(l.toks[i - 1].class, Class::Operator) && (l.toks[i - 1].pre == "-" || l.toks[i - 1].pre == "+");
                         match t.class {
                             Class::Number if t.pre.is_empty() && !is_var_line => {
-                                if glued_to_prev_sign || t.post.starts_with(',') || t.post.starts_with('.') {
+                                if glued_to_prev_sign {
+                                    continue;
+                                }
+                                if t.post.starts_with(',') || t.post.starts_with('.') {
+                                    // punctuation glued to the literal (`May 31, 1926`): it may or may not be painted with the
+                                    // number, but a Number token starts exactly where the literal starts
+                                    let digits_end = e - t.post.chars().count();
+                                    if !ui.iter().any(|u| u.ui_type == UiTokenType::Number && u.start == s && u.end >= digits_end && u.end <= e) {
+                                        acc.fail_kf(format!("the number literal {:?} starting at character {} is not reported as a Number token starting there; tokens: {}", t.text(dec, rthou), s, brief(&ui)), kf);
+                                        break;
+                                    }
+                                    checked_numbers += 1;
                                     continue;
                                 }
                                 // the literal without a magnitude suffix
@@ -172,13 +193,13 @@ impl Prop for Spans {
                                 let want = (s, e - suffix_len);
                                 checked_numbers += 1;
                                 if !ui.iter().any(|u| u.ui_type == UiTokenType::Number && (u.start, u.end) == want) {
-                                    acc.fail_kf(format!("the number literal {:?} at characters ({}, {}) is not reported as a Number token with exactly that span; tokens: {}", t.text(",", "."), want.0, want.1, brief(&ui)), kf);
+                                    acc.fail_kf(format!("the number literal {:?} at characters ({}, {}) is not reported as a Number token with exactly that span; tokens: {}", t.text(dec, rthou), want.0, want.1, brief(&ui)), kf);
                                     break;
                                 }
                             }
                             Class::Operator | Class::Paren if t.pre.chars().count() == 1 => {
                                 // a sign glued to the following digits belongs to that literal
-                                let next_glued = l.toks.get(i + 1).map_or(false, |n| n.space + extra.get(i + 1).copied().unwrap_or(0) == 0 && n.text(",", ".").chars().next().map_or(false, |c| c.is_ascii_digit()));
+                                let next_glued = l.toks.get(i + 1).map_or(false, |n| n.space + extra.get(i + 1).copied().unwrap_or(0) == 0 && n.text(dec, rthou).chars().next().map_or(false, |c| c.is_ascii_digit()));
                                 if (t.pre == "-" || t.pre == "+") && next_glued {
                                     continue;
                                 }
@@ -221,19 +242,22 @@ fn brief(ui: &[UiToken]) -> String {
 
 pub fn case_strategy() -> impl Strategy<Value = Case> {
     let comment = prop_oneof![2 => crate::c16::comment_strategy(), 1 => prop::sample::select(WORDS.to_vec()).prop_map(|s| format!(" {} 5 + 3", s))];
-    let structured = (any_line(), prop::collection::vec((any::<u8>(), any::<u8>()), 0..4), prop::option::weighted(0.4, comment), prop::collection::vec(prop_oneof![6 => Just(0u8), 2 => 1u8..3], 0..20)).prop_map(|(g, ins, cm, extra)| Case { input: Input::Structured(g, ins, cm, extra) });
+    let structured = (any_line(), prop::collection::vec((any::<u8>(), any::<u8>()), 0..4), prop::option::weighted(0.4, comment), prop::collection::vec(prop_oneof![6 => Just(0u8), 2 => 1u8..3], 0..20)).prop_map(|(g, ins, cm, extra)| Case { input: Input::Structured(g, ins, cm, extra), seps: 0 });
     let free = prop_oneof![
         2 => (crate::c01::lang_strategy(), crate::c01::text_strategy(crate::c01::soup_line(12).boxed(), 3)),
         1 => (crate::c01::lang_strategy(), crate::c01::text_strategy(crate::c01::unicode_line().boxed(), 3)),
         2 => (Just("en".to_string()), (prop::sample::select(WORDS.to_vec()), crate::c01::soup_line(8), prop::sample::select(WORDS.to_vec())).prop_map(|(a, s, b)| format!("{} {} {}", a, s, b))),
     ]
     .prop_filter("known language (an unknown tag has no month/zone vocabulary; still fine)", |_| true)
-    .prop_map(|(lang, text)| Case { input: Input::Free(lang, text) });
-    prop_oneof![3 => structured, 2 => free]
+    .prop_map(|(lang, text)| Case { input: Input::Free(lang, text), seps: 0 });
+    (prop_oneof![3 => structured, 2 => free], prop_oneof![3 => Just(0u8), 1 => 1u8..6]).prop_map(|(mut c, seps)| {
+        c.seps = seps;
+        c
+    })
 }
 
 pub fn regressions() -> Vec<Case> {
-    let f = |t: &str| Case { input: Input::Free("en".into(), t.into()) };
+    let f = |t: &str| Case { input: Input::Free("en".into(), t.into()), seps: 0 };
     vec![f("şğü 5"), f("€5"), f("5 € + 3 €"), f("日本 10 usd # ç"), f("5 # jan 2020"), f("ŞŞŞ 12 may"), f("😀 10:30 EST to CET"), f("öç 10 + 20 # 日本")]
 }
 
